@@ -61,6 +61,12 @@ def grid(tier: str) -> List[Dict[str, Any]]:
             # protection: no datagram at all (not even the host's own looped-back reply) separates the two copies
             pts.append({"q": q, "probe": probe, "id": id_, "port": port, "fam": fam, "age": age, "socks": socks,
                         "pre_copy_ms": 200, "jitter": jit})
+        if age in ("30s+1", "75s+1", "1125s+1", "5000s") and port == 5353 and id_ == 0 and fam == "v4" and \
+                any(qu for _, _, qu in QUESTIONS[q]):
+            # a neighbour multicast *sibling* records (same name, type and class, other rdata: another instance of the type,
+            # another address of the host name) five seconds ago: that says nothing about when our records were multicast
+            pts.append({"q": q, "probe": probe, "id": id_, "port": port, "fam": fam, "age": age, "socks": socks,
+                        "sibling": True, "jitter": jit})
 
         pts.append({"q": q, "probe": probe, "id": id_, "port": port, "fam": fam, "age": age, "socks": socks, "jitter": jit})
     return pts
@@ -96,6 +102,14 @@ def run_point(p: Dict[str, Any], verbose: bool = False) -> Tuple[Optional[Dict[s
             rx = [t for t in host.transports() if (t.sock.role == "listen" and not v6) or
                   (v6 and t.sock.role == "respond" and t.sock.family == socket.AF_INET6)][0]
         src = (src_ip, p["port"], 0, host.scope_id) if v6 else (src_ip, p["port"])
+        if p.get("sibling"):
+            w.advance_to_ms(tq - 5000)
+            sib = wire.response([("PTR", TA, 1, 4500, "neighbour._a._tcp.local."), ("PTR", "_b._tcp.local.", 1, 4500, "nb._b._tcp.local."),
+                                 ("A", S1.server, 1, 120, bytes([10, 0, 0, 201])), ("A", S3.server, 1, 60, bytes([10, 0, 0, 203])),
+                                 ("AAAA", S3.server, 1, 60, bytes.fromhex("fe8000000000000000000000000000cc"))])
+            rx.protocol.datagram_received(sib, ("10.0.0.77", 5353) if not v6 else ("fe80::77", 5353, 0, host.scope_id))
+            w.settle()
+            w.advance_to_ms(tq)
         if p.get("pre_copy_ms"):
             w.advance_to_ms(tq - p["pre_copy_ms"])
             rx.protocol.datagram_received(data, src)
